@@ -12,6 +12,7 @@ Poisson bracket is replaced by its ring summary (justified by C06.c).  Decided, 
 b (added)  series weights: the k-th iterated bracket enters with 1/k! (formal blocks, N_max = 7), for the Hamiltonian and the coordinate series;
            the coordinate series examined are the ones HamiltonianPipeline.get_lie_expansions requests (its own keyword arguments)
 d (added)  generating functions are stored under / read from the slot of their own transform (C18.b slot rule, re-filed)
+d-source (round 4)  C09.d re-filed: the centre-manifold restriction never writes into the cached normal-form polynomial
 """
 from __future__ import annotations
 
@@ -193,6 +194,11 @@ def run(tier):
     from . import c18
     from .common import Relabel
     c18.generating_function_slots(Relabel(chk, {"C18.b": "C08.d"}))
+    # a conversion that follows the normal form (the centre-manifold restriction) never writes into the cached normal-form polynomial: H_new = H_old o Phi
+    # must still hold for the partial normal form after the reduced form has been requested (C09.d re-filed)
+    from . import c09 as _c09
+    from .common import Relabel as _Relabel2
+    _c09._d_restriction(_Relabel2(chk, {"C09.d": "C08.d-source"}))
     return chk
 
 
